@@ -228,7 +228,8 @@ func HashPw(pw string) string {
 
 // AddAccount writes an account file (named-flag format) before the server starts.
 func (w *World) AddAccount(login, name, pw string, a refproto.Access) {
-	w.WriteFile(filepath.Join("Users", login+".yaml"), refproto.AccountYAML(login, name, HashPw(pw), a, ""))
+	// the server stores the hash of the password as sent on the wire (obfuscated)
+	w.WriteFile(filepath.Join("Users", login+".yaml"), refproto.AccountYAML(login, name, HashPw(string(refproto.Obfuscate([]byte(pw)))), a, ""))
 }
 
 // Violate records a violation.
